@@ -8,7 +8,7 @@ use crate::{
     UserModel,
 };
 
-use crate::user_model::common::selected_sheet_after_move;
+use crate::user_model::common::{selected_sheet_after_delete, selected_sheet_after_move};
 use crate::user_model::history::{Diff, DiffList};
 
 impl<'a> UserModel<'a> {
@@ -816,10 +816,14 @@ impl<'a> UserModel<'a> {
                     old_value: _,
                 } => self.model.set_frozen_columns(*sheet, *new_value)?,
                 Diff::DeleteSheet { sheet, old_data: _ } => {
+                    let sheet_count = self.model.workbook.worksheets.len() as u32;
+                    let selected = self.get_selected_sheet();
                     self.model.delete_sheet(*sheet)?;
-                    if *sheet > 0 {
-                        self.set_selected_sheet(*sheet - 1)?;
-                    }
+                    self.set_selected_sheet(selected_sheet_after_delete(
+                        selected,
+                        *sheet,
+                        sheet_count,
+                    ))?;
                 }
                 Diff::NewSheet { index, name } => {
                     self.model.insert_sheet(name, *index, None)?;
